@@ -93,6 +93,9 @@ class Interp:
         self.max_depth = max_depth
         self._modsum = {}
         self._modmeta = {}
+        self.derived = None      # (state, loc) -> value implied by other cells (data-structure invariants), or None
+        self.inline_predicates = True
+        self._depth = 0
         self.track_types = None  # if set: only variables whose type mentions one of these names are tracked
         self.store_hook = None   # (fn, lhs MemberExpr node) -> value to use when an unknown value is stored
         self.memo = {}
@@ -152,7 +155,10 @@ class Interp:
         if k in ("MemberExpr", "DeclRefExpr"):
             loc = self.loc_of(fn, n)
             if loc is not None:
-                return st.get(loc)
+                v = st.get(loc)
+                if v is None and self.derived is not None:
+                    v = self.derived(st, loc)
+                return v
             return None
         if k == "UnaryOperator":
             op = n.get("op")
@@ -199,11 +205,38 @@ class Interp:
             if op == ",":
                 return self.eval(fn, n["c"][1], st)
         if k == "CallExpr":
-            # inline predicates on tracked records (dt_sandwich_p etc.): evaluated by the hook if given
-            h = self.cb.get("eval_call")
-            if h:
-                return h(self, fn, n, st)
+            return self.call_value(fn, n, st)
         return None
+
+    def call_value(self, fn, n, st):
+        """value returned by a small side-effect-free helper with a body in this unit (dt_sandwich_p & co):
+        the callee is interpreted on the bound argument state and its return values are joined"""
+        if not self.inline_predicates:
+            return None
+        callee = fn.tu.functions.get(n.get("callee") or "")
+        if callee is None or callee is fn or callee.endline - callee.line > 12:
+            return None
+        if any(callee.tu.types[p["t"]].get("ptr") for p in callee.params):
+            return None
+        if self._depth > 3:
+            return None
+        ns0 = bind_args(self, fn, n, st, callee)
+        self._depth += 1
+        try:
+            saved = self.cb
+            self.cb = {}
+            exits = self.run(callee, ns0, 1, None)
+        finally:
+            self.cb = saved
+            self._depth -= 1
+        rc = ("ret", callee.d["d"])
+        vals = [e.get((rc, 0, 64)) for e in exits]
+        if not vals:
+            return None
+        out = vals[0]
+        for v in vals[1:]:
+            out = join(out, v)
+        return out
 
     def refine(self, fn, cond, pol, st):
         """state on the edge where `cond` evaluated to pol; None if infeasible"""
@@ -494,6 +527,10 @@ class Interp:
                         st.set((v["d"], toff, tw), self.eval(fn, call_args(i2)[ai], st))
                 elif t.get("w") is not None and not t.get("ptr") and not t.get("arr"):
                     st.set((v["d"], 0, t["w"]), self.eval(fn, init, st))
+        elif k == "ReturnStmt":
+            c = kids(n)
+            if c:
+                st.set((("ret", fn.d["d"]), 0, 64), self.eval(fn, c[0], st))
         elif k == "CallExpr":
             h = self.cb.get("on_call")
             if h:
